@@ -43,7 +43,8 @@ def gen_body(draw, avail, o, name):
         body.append(["ifcreate_raw", _pick(draw, o["watch"])])
     if draw(st.integers(0, 99)) < o.get("p_failflag", 20):
         pos = draw(st.integers(0, len(body)))
-        body.insert(pos, ["failflag", name.replace("/", "_"), draw(st.sampled_from([1, 2, 7, 99]))])
+        kind_ = "failflag_direct" if draw(st.integers(0, 99)) < o.get("p_fail_direct", 0) else "failflag"
+        body.insert(pos, [kind_, name.replace("/", "_"), draw(st.sampled_from([1, 2, 7, 99]))])
     if draw(st.integers(0, 99)) < o.get("p_usermod", 0):
         body.append(["usermod"])
     body.append(["out", draw(st.sampled_from(["stdout", "file"]))])
@@ -254,7 +255,7 @@ def histories(draw, o=None):
             ops.append(["ext", _pick(draw, ["t%d" % i for i in range(len(targets))] + ["r0"]),
                         "e%d" % draw(st.integers(0, 3))])
         elif k == "failflag":
-            names = sorted({s[1] for spec in dofiles.values() for s in spec["body"] if s[0] == "failflag"})
+            names = sorted({s[1] for spec in dofiles.values() for s in spec["body"] if s[0] in ("failflag", "failflag_direct")})
             if names:
                 ops.append(["failflag", _pick(draw, names), draw(st.integers(0, 1))])
         elif k == "dropdep":
